@@ -52,7 +52,7 @@ func (v variant) String() string {
 	return string(b)
 }
 
-func pick[T any](r *rand.Rand, xs ...T) T { return xs[r.IntN(len(xs))] }
+func pick[T any](r *rand.Rand, xs ...T) T    { return xs[r.IntN(len(xs))] }
 func chance(r *rand.Rand, num, den int) bool { return r.IntN(den) < num }
 
 func drawVariant(r *rand.Rand) variant {
